@@ -136,7 +136,9 @@ class Case:
                 int(w.is_full()),
                 [[self.sid[id(bs)], [int(self.tasks[t] in mem) for t in probe_tasks]]
                  for bs, mem in w._placed_batches.items()],
-                [self.sid[id(bs)] for bs in w._batch_tasks_for_strategy]]
+                [self.sid[id(bs)] for bs in w._batch_tasks_for_strategy],
+                [[self.pid[p.id], vrvec(st.resources._resource_vector.items())]
+                 for p, st in list(w._available_profiles.items()) + list(w._pending_profiles.items())]]
 
     def obs_pool(self, P):
         strats = [self.strats[s["id"]] for s in self.case["strats"]]
@@ -242,13 +244,61 @@ class Case:
             return errcode(e)
         raise SystemExit("bad command %r" % (c,))
 
+    # ---------------- auxiliary facts used as input signatures by the harness
+    def pending_objs(self, o):
+        if o[0] == "worker":
+            return [id(s) for s in o[1]._pending_profiles.values()]
+        if o[0] == "pool":
+            return [id(s) for w in o[1].workers for s in w._pending_profiles.values()]
+        return []
+
+    def shares_pending(self, i):
+        mine = set(self.pending_objs(self.objs[i]))
+        return int(any(mine & set(self.pending_objs(o)) for j, o in enumerate(self.objs) if j != i))
+
+    def cleanup(self, o):
+        """remove every placed task, evict every profile / deallocate every computation"""
+        codes = []
+
+        def do(f):
+            try:
+                f()
+                codes.append(0)
+            except ERRS as e:
+                codes.append(errcode(e))
+        if o[0] == "res":
+            for c in list(o[1]._current_allocations):
+                do(lambda c=c: o[1].deallocate(c))
+        elif o[0] == "worker":
+            for t in o[1].get_placed_tasks():
+                do(lambda t=t: o[1].remove_task(us(0), t))
+            for p in o[1].get_available_profiles() + o[1].get_pending_profiles():
+                do(lambda p=p: o[1].evict_profile(p))
+        elif o[0] == "pool":
+            for t in o[1].get_placed_tasks():
+                do(lambda t=t: o[1].remove_task(us(0), t))
+            for w in o[1].workers:
+                for p in w.get_available_profiles() + w.get_pending_profiles():
+                    do(lambda p=p, w=w: o[1].evict_profile(p, w.id))
+        return codes
+
     def run(self):
-        out = [self.observe()]
+        last_only = self.case.get("last_only")
+        out = [] if last_only else [self.observe()]
+        codes = []
+        shared = []
         for c in self.case["cmds"]:
+            shared.append(self.shares_pending(c[1]) if c[0] in ("worker", "pool") and c[2][0] == "step" else 0)
             code = self.run_cmd(c)
-            out.append([code, self.observe()])
-        return out
+            codes.append(code)
+            if not last_only:
+                out.append([code, self.observe()])
+        res = {"obs": [codes, self.observe()] if last_only else out, "shared": shared}
+        if self.case.get("cleanup"):
+            res["cleanup"] = [self.cleanup(o) for o in self.objs]
+            res["final"] = self.observe()
+        return res
 
 
-res = {"obs": [Case(c).run() for c in payload.get("cases", [])]}
+res = {"runs": [Case(c).run() for c in payload.get("cases", [])]}
 implutil.end(res)
